@@ -99,6 +99,15 @@ func c06HopsChild(scPath string) int {
 		for k := 0; k < rng.Intn(3); k++ {
 			jsonOut = append(jsonOut, fmt.Sprintf("%q", mkOut("asset-json")))
 		}
+		// outlinks announced in a Link response header of the page
+		pageHdr := http.Header{"Content-Type": {"text/html"}}
+		if rng.Intn(2) == 0 {
+			var ls []string
+			for k := 0; k < 1+rng.Intn(2); k++ {
+				ls = append(ls, "<"+mkOut("link-header")+">; rel=\""+pick(rng, []string{"next", "prev", "canonical"})+"\"")
+			}
+			pageHdr.Set("Link", strings.Join(ls, ", "))
+		}
 		jsonURL := fmt.Sprintf("https://%s/d/%s.json", pageHost, tg.next())
 		page := htmlPage("p", []string{jsonURL}, anchors)
 		firstURL := pageURL
@@ -114,7 +123,7 @@ func c06HopsChild(scPath string) int {
 			case viaRedirect && it.GetDepth() == 0:
 				return &fakeResp{Status: 302, Header: http.Header{"Location": {pageURL}}}
 			case wire == pageURL:
-				return &fakeResp{Status: 200, Header: http.Header{"Content-Type": {"text/html"}}, Body: page}
+				return &fakeResp{Status: 200, Header: pageHdr.Clone(), Body: page}
 			case wire == jsonURL:
 				return &fakeResp{Status: 200, Header: http.Header{"Content-Type": {"application/json"}}, Body: []byte(`{"links":[` + strings.Join(jsonOut, ",") + `]}`)}
 			}
